@@ -125,11 +125,20 @@ func (g *c08Gen) poolSelectors() []metav1.LabelSelector {
 	var out []metav1.LabelSelector
 	n := vfPick(r, []int{0, 0, 0, 1, 1, 2})
 	for i := 0; i < n; i++ {
-		if r.Bool() {
+		switch r.Intn(6) {
+		case 0, 1, 2:
 			out = append(out, metav1.LabelSelector{MatchLabels: map[string]string{"tier": vfPick(r, []string{"x", "y", "z"})}})
-		} else {
+		case 3:
 			out = append(out, metav1.LabelSelector{MatchExpressions: []metav1.LabelSelectorRequirement{{
 				Key: "tier", Operator: metav1.LabelSelectorOpExists}}})
+		case 4: // negative operators also select pools that carry no label at all
+			out = append(out, metav1.LabelSelector{MatchExpressions: []metav1.LabelSelectorRequirement{{
+				Key: "tier", Operator: vfPick(r, []metav1.LabelSelectorOperator{metav1.LabelSelectorOpNotIn, metav1.LabelSelectorOpDoesNotExist})}}})
+			if out[len(out)-1].MatchExpressions[0].Operator == metav1.LabelSelectorOpNotIn {
+				out[len(out)-1].MatchExpressions[0].Values = []string{vfPick(r, []string{"x", "y", "z"})}
+			}
+		default: // the empty selector selects everything
+			out = append(out, metav1.LabelSelector{})
 		}
 	}
 	return out
